@@ -324,6 +324,19 @@ func (fr *Frame) loopSpec(l *Loop) *LoopSpec {
 func (fr *Frame) invScope(l *Loop, st *State) *Scope {
 	sc := fr.baseScope(st)
 	sc.loop = l
+	// inside loop invariants a parameter name denotes the current value of the (mutable) parameter;
+	// old(p) denotes its entry value. In requires/ensures it denotes the entry value.
+	for name := range fr.params {
+		for _, b := range fr.fn.Blocks {
+			for _, in := range b.Instrs {
+				if a, ok := in.(*ssa.Alloc); ok && a.Comment == name {
+					if _, declared := fr.env[a]; declared {
+						delete(sc.vars, name)
+					}
+				}
+			}
+		}
+	}
 	return sc
 }
 
